@@ -7,7 +7,7 @@ import math
 import numpy as np
 from hypothesis import strategies as st
 
-from ..core import SubCheck, Violation, cut, quiet, require
+from ..core import EDIT_LEVELS, SubCheck, Violation, cut, live_edit, quiet, require
 from ..oracles import cphot_ref as ref
 from ..strategies import abs_near, bfloat, log_uniform, near, rel_near, ulp_step
 from .c06 import B42, ONE_DEG, alt_s, alt_u, beta_s, beta_u, energy, loge_u
@@ -191,9 +191,9 @@ def body_chain(case):
     eas_live = _eas(det, 1.0, 1.0, 1e300)
     with cut("EAS (live object, first call)"):
         run_eas(eas_live, beta, alt, E)
-    eas_live.config.detector.optical.telescope_effective_area = area
-    eas_live.config.detector.optical.quantum_efficiency = qe
-    eas_live.config.detector.optical.photo_electron_threshold = thr
+    level = case.get("edit_level", "leaf")
+    live_edit(eas_live, ("detector", "optical"), {"telescope_effective_area": area, "quantum_efficiency": qe, "photo_electron_threshold": thr}, level)
+    labels.add("live_edit_" + level)
     with cut("EAS (live object after editing area, efficiency and threshold in its configuration)"):
         pe4, cos4, _ = run_eas(eas_live, beta, alt, E)
     require(
@@ -228,6 +228,7 @@ SUBCHECKS = [
                 "ratio": ratio_st,
                 "pick": st.integers(0, 9),
                 "lower": st.sampled_from([1.0000001, 1.5, 2.0, 10.0]),
+                "edit_level": st.sampled_from(EDIT_LEVELS),
             }
         ),
         body_chain,
